@@ -136,7 +136,7 @@ func c02Master(c *Ctx) {
 		vt := b.Of(e.Results[0], e.Instr)
 		cc, _ := ana.Find("store(faddr<ChainCode>(self), slice($I, 32, $hi))", vt)
 		kk, _ := ana.Find("store(faddr<Key>(self), ext#0($call))", vt)
-		pp, _ := ana.Find("store(faddr<parent>(self), $p)", vt)
+		pp, _ := ana.Find("store(faddr<#2>(self), $p)", vt)
 		okC := cc != nil && b.Root(cc.Arg(1).Arg(0).V) == ssa.Value(sumCall) && (cc.Arg(1).Arg(2).Is("none") || cc.Arg(1).Arg(2).IsInt(64))
 		okK := kk != nil && kk.Arg(1).Arg(0).V == npk[0].Value()
 		okP := pp == nil || pp.Arg(1).Is("nil")
@@ -328,7 +328,7 @@ func c02Derive(c *Ctx) {
 		vt := b.Of(e.Results[0], e.Instr)
 		cc, _ := ana.Find("store(faddr<ChainCode>(self), slice($I, 32, $hi))", vt)
 		kk, _ := ana.Find("store(faddr<Key>(self), ext#0($call))", vt)
-		pp, _ := ana.Find("store(faddr<parent>(self), "+key+")", vt)
+		pp, _ := ana.Find("store(faddr<#2>(self), "+key+")", vt)
 		r.Check(cc != nil && cc.Arg(1).Arg(0).V == iVal && kk != nil && kk.Arg(1).Arg(0).V == shifts[0].Value() && pp != nil, "C02.ckd-data.result", c.ipos(e.Instr), "child = {ChainCode: I[32:], Key: Shift result, parent: e.Key}")
 	}
 	c02RetryEdges(c, fn, b, shifts[0], "DeriveChild")
@@ -642,7 +642,7 @@ func c02Misc(c *Ctx) {
 	if f := c.fn("pkg/slip10", "ExtendedKey.Fingerprint"); f != nil {
 		fn := f.Function
 		b := ana.NewBuilder(c.P, fn)
-		nilE := plainEdges(edgesMatching(b, "bin<==>(load(faddr<parent>(p0)), nil)"))
+		nilE := plainEdges(edgesMatching(b, "bin<==>(load(faddr<#2>(p0)), nil)"))
 		for _, e := range ana.Exits(fn) {
 			if e.Panic {
 				continue
@@ -652,7 +652,7 @@ func c02Misc(c *Ctx) {
 				r.Check(mustPass(fn, e.Instr.Block(), nilE), "C02.fingerprint.master", c.ipos(e.Instr), "4 zero bytes exactly when there is no parent")
 				continue
 			}
-			bd, ok := ana.Match("slice(call<*>(call<("+slipPkg+"Key).Bytes>(call<("+slipPkg+"Key).Public>(load(faddr<parent>(p0))))), 0, 4)", vt)
+			bd, ok := ana.Match("slice(call<*>(call<("+slipPkg+"Key).Bytes>(call<("+slipPkg+"Key).Public>(load(faddr<#2>(p0))))), 0, 4)", vt)
 			_ = bd
 			okH := false
 			if ok {
@@ -680,7 +680,7 @@ func c02Misc(c *Ctx) {
 			vt := b.Of(e.Results[0], e.Instr)
 			all := st != nil
 			for i := 0; st != nil && i < st.NumFields(); i++ {
-				fnm := st.Field(i).Name()
+				fnm := ana.FieldName(st, i)
 				want := "load(faddr<" + fnm + ">(p0))"
 				if fnm == "Key" {
 					want = "call<(" + slipPkg + "Key).Public>(load(faddr<Key>(p0)))"
